@@ -174,6 +174,56 @@ Section Screw.
   Definition iso_thread (radius pitch : T) (external : bool) : list V2 :=
     vertices (iso_thread_pv radius pitch external).
 
+  (* ------------------------------------------------------------ closed form of the ISOThread outlines
+     (left to right, without the two corners on the axis).  Smooth(radius, 5) replaces a corner by the
+     6 points at 30 + 24 j degrees on the tangent arc.  Sdf/IsoProfile.v proves the nesting for these
+     lists at ROps; Sdf/C18Corr.v compares them with `iso_thread` at FOps on every run. *)
+  Definition iso_H : T := osqrt O (ofZ O 3) / two.                       (* h / pitch *)
+  Definition iso_ang (n d : Z) : T := ofZ O n * opi O / ofZ O d.
+  Definition iso_kx (a : T) : T := osqrt O (ofZ O 3) / ofZ O 12 * ocos O a.
+  Definition iso_ky (a : T) : T := osqrt O (ofZ O 3) / ofZ O 12 * osin O a.
+
+  Definition iso_ext_outline (r p : T) : list (T * T) :=
+    let a1 := iso_ang 3 10 in let a2 := iso_ang 13 30 in let a3 := iso_ang 17 30 in let a4 := iso_ang 7 10 in
+    let rm := r + p * (- cst 5 8 * iso_H) in
+    let cy := r + p * (- cst 13 24 * iso_H) in
+    [ (- p, r + p * (iso_H / ofZ O 8));
+      (p * (- cst 5 8), rm);
+      (p * (- cst 1 2 + iso_kx a4), cy - p * iso_ky a4);
+      (p * (- cst 1 2 + iso_kx a3), cy - p * iso_ky a3);
+      (p * (- cst 1 2 + iso_kx a2), cy - p * iso_ky a2);
+      (p * (- cst 1 2 + iso_kx a1), cy - p * iso_ky a1);
+      (p * (- cst 3 8), rm);
+      (p * (- cst 1 16), r);
+      (p * cst 1 16, r);
+      (p * cst 3 8, rm);
+      (p * (cst 1 2 + iso_kx a4), cy - p * iso_ky a4);
+      (p * (cst 1 2 + iso_kx a3), cy - p * iso_ky a3);
+      (p * (cst 1 2 + iso_kx a2), cy - p * iso_ky a2);
+      (p * (cst 1 2 + iso_kx a1), cy - p * iso_ky a1);
+      (p * cst 5 8, rm);
+      (p, r + p * (iso_H / ofZ O 8)) ].
+
+  Definition iso_int_outline (r p : T) : list (T * T) :=
+    let a1 := iso_ang 3 10 in let a2 := iso_ang 13 30 in let a3 := iso_ang 17 30 in let a4 := iso_ang 7 10 in
+    let rm := r + p * (- cst 5 8 * iso_H) in
+    let cy := r + p * (- cst 1 24 * iso_H) in
+    [ (- p, rm);
+      (p * (- cst 3 8), rm);
+      (p * (- cst 1 16), r);
+      (p * (iso_kx a4 / two), cy + p * (iso_ky a4 / two));
+      (p * (iso_kx a3 / two), cy + p * (iso_ky a3 / two));
+      (p * (iso_kx a2 / two), cy + p * (iso_ky a2 / two));
+      (p * (iso_kx a1 / two), cy + p * (iso_ky a1 / two));
+      (p * cst 1 16, r);
+      (p * cst 3 8, rm);
+      (p, rm) ].
+
+  (* the polygon ISOThread hands to Polygon2D, from the outline: Go lists it right to left and closes it
+     through the two corners on the axis *)
+  Definition iso_polygon_of_outline (p : T) (outline : list (T * T)) : list V2 :=
+    mkV2 p (o0 O) :: map (fun q => mkV2 (fst q) (snd q)) (rev outline) ++ [mkV2 (- p) (o0 O)].
+
   (* ------------------------------------------------------------ mesh2.go *)
 
   (* lineInfo: a, b, unit vector, length *)
